@@ -752,9 +752,11 @@ def initialize_X_and_G(
             f" not match the size of x ({x.size})!"
         )
     # restore the past X and G
+    # sk[k] = X[k+1] - X[k] and checkpoint.x is the last point: X[j] is checkpoint.x
+    # minus the sum of sk[j:], i.e., a cumulative sum starting from the newest pair
     for x, g in zip(
-        checkpoint.x - np.cumsum(checkpoint.hess_inv.sk, axis=0),
-        checkpoint.jac - np.cumsum(checkpoint.hess_inv.yk, axis=0),
+        checkpoint.x - np.cumsum(checkpoint.hess_inv.sk[::-1], axis=0)[::-1],
+        checkpoint.jac - np.cumsum(checkpoint.hess_inv.yk[::-1], axis=0)[::-1],
     ):
         if len(X) > maxcor:
             X.popleft()
